@@ -847,3 +847,14 @@ def EMPTYBATCH_SCRIPT(K=0, horizon=6):
     s = spec(f'EMPTYBATCHSCRIPT[K{K}]', devs, horizon, [('block', 'B', True), ('block', 'B', False)], K)
     s['script'] = [[0.75, 2, ['block', 'K', True]], [3.25, 2, ['block', 'K', False]]]
     return s
+
+
+def BLOCK_SCRIPT(K=0, horizon=5, ops=None):
+    '''The input of a busy machine is blocked and unblocked (scripted) while the fast source already holds the next part.'''
+    devs = [src('S', 0.5), proc('M1', ['S'], 1, resources={'r': 1}), sink('K', ['M1'])]
+    if ops is None:
+        ops = [('addres', 'r', -1), ('addres', 'r', 1), ('block', 'K', True), ('block', 'K', False)]
+    s = spec(f'BLOCKSCRIPT[K{K}]', devs, horizon, ops, K, pools={'r': 1})
+    s['script'] = [[1.25, 2, ['block', 'M1', True]], [1.625, 2, ['block', 'M1', False]],
+                   [2.25, 2, ['block', 'M1', True]], [2.75, 2, ['block', 'M1', False]]]
+    return s
